@@ -31,6 +31,10 @@ var profiles = map[string]Profile{
 		FailInsPct: 2, MaxStmts: 9},
 	"keys": {Name: "keys", Txns: 16, KeyedPct: 100, SeedPct: 40, NestedPct: 10, SchemaPct: 5, RestorePct: 5, ReplicaPct: 15,
 		AbortPct: 20, FilterPct: 6, FailInsPct: 8, MaxStmts: 6},
+	// keyed histories in which half of the transactions roll back, inserts fail and whole transactions
+	// run nested inside another one's callback (offsets freed and taken over before a rollback)
+	"keysatomic": {Name: "keysatomic", Txns: 14, KeyedPct: 100, SeedPct: 25, NestedPct: 25, SchemaPct: 3, AbortPct: 45, FilterPct: 6,
+		FailInsPct: 25, MaxStmts: 7},
 	"replica": {Name: "replica", Txns: 12, KeyedPct: 25, SeedPct: 40, SchemaPct: 8, ReplicaPct: 50,
 		AbortPct: 12, FilterPct: 8, FailInsPct: 5, MaxStmts: 7},
 	"restore": {Name: "restore", Txns: 10, KeyedPct: 25, SeedPct: 45, DensePct: 6, SchemaPct: 10, RestorePct: 35, ReplicaPct: 0,
